@@ -6,6 +6,10 @@ ids = [json.loads(l)["id"] for l in open(os.path.join(HERE, "properties.jsonl"))
 
 # pid -> (category, text, level_note, technique, design_ref)
 CLAIMS = {
+ "C17": ("other",
+         "The binary codec tables are extracted from MIR and compared: for each of the 5 chunk tags the writer's ordered wire fields (integer type, width, byte order) equal the reader's; each variable tail is governed by the immediately preceding length field on both sides and the reader computes K*len in usize for K-byte records; record formats (xFF+u16le / 000000, u16le) agree; each wire field carries the same model field on both sides (SymbolData.addr/src_start/external, map keys and values); every model field is written and the final aggregates are rebuilt from what the arms collect; nl_indices is recomputed. Decides codec agreement, which is necessary for the round trip; equality of the resulting containers is argued from unique keys.",
+         "Trusted: rustc MIR, mirfacts, rules/lib/codec.py. Assumes C24 (producers emit strictly increasing line blocks). The empty-symbol-table-without-debug case is listed as the one lossy spot.",
+         "sibling agreement of writer/reader codec tables extracted from MIR", "5 C17"),
  "C01": ("other",
          "Structural clauses of 'the image is the exact encoding': encoder rows and opcode table equal the ISA (with join_bits decided bit-exactly), the 25 alias-expansion rows equal the ISA alias table, the pc handed to label resolution is lc+1 of the lc then advanced by 1 and offsets are (addr-pc) as i16 of the same N, word_len agrees row by row with what write_directive appends (.stringz bytes then 0, .blkw n uninitialised words, .fill value or label address), and pass 1 binds labels to the location counter before the statement's own shift and sizes statements with the same word_len. Values held in run-time containers are not decided.",
          "Trusted: rustc MIR, mirfacts, table extraction, spec/lc3_isa.json. Relies on C35 (Offset invariant) and C02 (guards).",
